@@ -4,7 +4,7 @@ PROPS[pid]["rules"] = [(rule id, floor of decided instances, selector over insta
 Floors are the numbers counted on the tree the rules were written against: a rule that suddenly
 matches fewer sites is a broken check (exit 2), never a silent pass.
 """
-from . import lt, td, pm, hs, ws, tf, ec, se, bb, lc, cm, vt, bt, sr, wf, dp, dt, he, gl, ts, ee, sl, wp, fs, ic, nb, im, rn, mp, sp, ms, cp, sh, st, rh, vo, wi, law, cn, pr, dtr, sa, vx
+from . import lt, td, pm, hs, ws, tf, ec, se, bb, lc, cm, vt, bt, sr, le, wf, dp, dt, he, gl, ts, ee, sl, wp, fs, ic, nb, im, rn, mp, sp, ms, cp, sh, st, rh, vo, wi, law, cn, pr, dtr, sa, vx
 
 
 def has(*subs):
@@ -70,6 +70,7 @@ RULES = {
     "VT": {"run": vt.run},
     "BT": {"run": bt.run},
     "SR": {"run": sr.run},
+    "LE": {"run": le.run},
 }
 
 BDD_T = ("BddNode", "BddPtr")
@@ -200,7 +201,8 @@ PROPS = {
         "rules": [("DP", 21, has("compile_logical_expr", "compile_plan", "BottomUpPlan::")),
                   ("FS", 10, has("compile_cnf", "or_lst", "and_lst", "from_dtree")), ("DT", 1, has("BottomUpBuilder::or:")),
                   ("SH", 5, has(":CC:")), ("ST", 2, None), ("GL", 1, has("GL6")),
-                  ("CP", 3, has("cond_with_alloc", "condition_essential")), ("LC", 1, has("compile_cnf_with_assignments"))],
+                  ("CP", 3, has("cond_with_alloc", "condition_essential")), ("LC", 1, has("compile_cnf_with_assignments")),
+                  ("LE", 7, None)],
         "explanation": "Every variant of LogicalExpr and BottomUpPlan is compiled by its namesake operation with operands in "
                        "order, a dtree becomes a conjunction of clause disjunctions of the literal's own label and polarity "
                        "with the empty clause false (DP; none of these arms is executed by the test-suite); empty-formula / "
@@ -280,8 +282,8 @@ PROPS = {
     },
     "C17": {
         "level": "other",
-        "rules": [("DP", 11, has("from_sexpr", "VTreeSerializer", "from_dimacs")), ("IC", 1, has("from_dimacs")),
-                  ("CP", 6, has("serialize::")), ("CN", 1, has("repr::cnf::")), ("SR", 3, None)],
+        "rules": [("DP", 12, has("from_sexpr", "VTreeSerializer", "from_dimacs", "to_dimacs")), ("IC", 1, has("from_dimacs")),
+                  ("CP", 6, has("serialize::")), ("CN", 1, has("repr::cnf::")), ("SR", 3, None), ("LE", 7, None)],
         "explanation": "The s-expression translation and the vtree mirror map each variant to its namesake with children in "
                        "order (DP); DIMACS signs map Neg to false and Pos to true in both parsers (DP); the CNF parser "
                        "subtracts one from the 1-based DIMACS variable (IC OneBased -> Index). Not decided: model-level "
